@@ -95,6 +95,7 @@ class Driver:
         self.raising_cb = raising_cb
         self.cb_log = []
         self.events = []
+        self.ops = []
         self.lines = {}
         self.nlines = 0
         self.now = 1700000000
@@ -270,6 +271,7 @@ class Driver:
     def _emit_event(self, ev, raised, with_disk=False):
         ev["out"] = [self._cmd(x) for x in self.tr.log]
         ev["rawout"] = list(self.tr.log)
+        ev["outp"] = [describe(ref_parse_cmd(x)[2], self.I) for x in self.tr.log]
         post_tree = json.dumps(self._tree(), sort_keys=True)
         ev["cb"] = [f + [1 if seen == post_tree else 0] for f, seen in self.cb_log]
         ev["raised"] = bool(raised)
@@ -302,6 +304,7 @@ class Driver:
             self.now = now
             self.nows.add(str(now))
         rec = self.line_rec(line)
+        self.ops.append(["recv", line, self.now])
         raised = None
         try:
             self.gw.tasks.add_job(self.gw.logic, line)
@@ -313,6 +316,7 @@ class Driver:
     def pump(self):
         """One iteration of SyncTasks._poll_queue: run a job, send its reply."""
         raised = None
+        self.ops.append(["pump"])
         try:
             reply = self.gw.tasks.run_job()
             self.gw.tasks.transport.send(reply)
@@ -326,6 +330,7 @@ class Driver:
         exc_name = "none"
         raised = None
         tkey = str(t) if key_as_str else t
+        self.ops.append(["set_child", n, c, t, value, ack, key_as_str])
         try:
             if ack:
                 self.gw.set_child_value(n, c, tkey, value, ack=ack)
@@ -341,6 +346,7 @@ class Driver:
 
     def update_fw(self, nids, ftype, fver, image_path=None):
         raised = None
+        self.ops.append(["update_fw", nids, ftype, fver, image_path])
         try:
             if self.flavour == "async":
                 self._loop().run_until_complete(self.gw.update_fw(nids, ftype, fver, image_path))
@@ -352,11 +358,13 @@ class Driver:
         return self._emit_event({"a": "UpdateFw", "nids": lst, "f": [ftype, fver], "img": image_path is not None}, raised)
 
     def set_metric(self, b):
+        self.ops.append(["set_metric", bool(b)])
         self.gw.metric = b
         return self._emit_event({"a": "Metric", "b": bool(b)}, None)
 
     def start_persistence(self):
         raised = None
+        self.ops.append(["start_persistence"])
         try:
             self.gw.start_persistence()
         except Exception as exc:  # pylint: disable=broad-except
@@ -366,6 +374,7 @@ class Driver:
 
     def tick(self):
         raised = None
+        self.ops.append(["tick"])
         timers = list(FakeTimer.armed)
         try:
             for t in timers:
@@ -377,6 +386,7 @@ class Driver:
 
     def stop_restart(self):
         raised = None
+        self.ops.append(["stop_restart"])
         try:
             self.gw.stop()
         except Exception as exc:  # pylint: disable=broad-except
@@ -387,4 +397,31 @@ class Driver:
         return ev
 
     def trace(self, meta=None):
-        return {"cfg": {"ver": self.version, "flavour": self.flavour, **(meta or {})}, "ev": self.events}
+        return {"cfg": {"ver": self.version, "flavour": self.flavour, "raising_cb": self.raising_cb,
+                        "persist": bool(self.pfile), **(meta or {})}, "ev": self.events, "ops": self.ops}
+
+
+def replay_ops(cfg, ops, persistence_file=None):
+    """Re-execute a recorded history against the current tree; returns the new trace."""
+    drv = Driver(cfg["ver"], cfg["flavour"], Interner(), persistence_file=persistence_file,
+                 raising_cb=cfg.get("raising_cb", False))
+    for op in ops:
+        k = op[0]
+        if k == "recv":
+            drv.recv(op[1], now=op[2])
+        elif k == "pump":
+            drv.pump()
+        elif k == "set_child":
+            drv.set_child(op[1], op[2], op[3], op[4], ack=op[5], key_as_str=op[6])
+        elif k == "update_fw":
+            drv.update_fw(op[1], op[2], op[3], op[4])
+        elif k == "set_metric":
+            drv.set_metric(op[1])
+        elif k == "start_persistence":
+            drv.start_persistence()
+        elif k == "tick":
+            drv.tick()
+        elif k == "stop_restart":
+            drv.stop_restart()
+    drv.close()
+    return drv.trace(cfg)
